@@ -351,7 +351,13 @@ func c20W1(sum *c20Summary, rng *rand.Rand, g, rounds int, viol func(string, str
 							viol("C20/concurrent-proof-fails", "CreateDisclosureProof (non-revocation) failed under concurrency: "+err.Error())
 							continue
 						}
-						ok := gabi.ProofList{cloneD(d)}.Verify([]*gabikeys.PublicKey{pk}, ctx, nonce, false, nil)
+						// alternately a received copy and the produced object itself (whose signed accumulator is the very
+						// object the credential's witness and all other proofs point to): verifying must not write to it
+						recv := d
+						if it%2 == 0 {
+							recv = cloneD(d)
+						}
+						ok := gabi.ProofList{recv}.Verify([]*gabikeys.PublicKey{pk}, ctx, nonce, false, nil)
 						proofs.Add(1)
 						if !ok {
 							if countSmall(d) >= 2 {
